@@ -86,6 +86,10 @@ def next_op(rng, runner, weights=None, allow=None, reuse=0.35) -> dict:
             if all(len(pool.contents[x]) <= mid or pool.cid_of_bytes(pool.contents[x][mid:]) is None for x in cs):
                 return {'op': 'addPacked', 'on': on, 'cs': cs, 'compress': rng.random() < 0.5, 'no_holes': True,
                         'read_twice': True, 'via': 'midstream', 'mid': mid}
+        if rc.cfg.target >= 2 ** 30 and rng.random() < 0.08:
+            # (large target only: both writers then aim at the same pack)
+            return {'op': 'addPacked', 'on': on, 'cs': cs, 'compress': rng.random() < 0.5, 'no_holes': False, 'read_twice': False,
+                    'via': 'nested', 'inner': [rng.randrange(len(runner.pool)) for _ in range(rng.choice([1, 2]))]}
         return {'op': 'addPacked', 'on': on, 'cs': cs, 'compress': rng.random() < 0.5, 'no_holes': no_holes,
                 'read_twice': rng.random() < 0.5, 'via': rng.choice(['bytes', 'streams', 'single', 'lazy', 'short']),
                 'short': rng.choice([1, 5, 64, 9000])}
